@@ -579,8 +579,11 @@ pub fn gen_e(u: &mut Chooser, t: &T, env: &mut Env, depth: usize) -> E {
             }
             _ => E::Index(b(gen_e(u, &T::List(Box::new(t.clone())), env, d)), b(gen_index(u, env, d))),
         },
-        T::Map(kt, vt) => match u.below(5) {
+        T::Map(kt, vt) => match u.below(7) {
             0 | 1 => leaf(u, t, env),
+            // a map taken out of a map or a list (gives `has(a.b.c)`, `x.k.k2`, `l[0].k` shapes)
+            5 => E::Select(b(gen_e(u, &T::Map(Box::new(T::Str), Box::new(t.clone())), env, d)), u.pick(&FIELD_NAMES).to_string()),
+            6 => E::Index(b(gen_e(u, &T::List(Box::new(t.clone())), env, d)), b(gen_index(u, env, d))),
             2 | 3 => {
                 let n = u.below(3);
                 let mut keys: Vec<V> = vec![];
